@@ -116,11 +116,9 @@ def replay_h_column_filter_in(a0, a1, vals, negate, nested):
     return _replay_rows([(a0, 0), (a1, 0)], filters, not nested)
 
 
-def h_column_filter_partition(a0: int, a1: int, p: int, op1: int, v1: int, pne: bool, vp: int, shape: int) -> bool:
-    """
-    pre: 0 <= op1 < 7 and 0 <= shape <= 2
-    post: __return__
-    """
+def _h_column_filter_partition(a0: int, a1: int, p: int, op1: int, v1: int, pne: bool, vp: int, shape: int) -> bool:
+    # (body of the harness below; kept free of a contract so that other harnesses can call it: CrossHair
+    # enforces the contract of a contracted callee and drops the path when it fails)
     # rows of one row group whose partition value is p; the group was not pruned.  Programs:
     #   0: [[A, P]]   2: [[P, A]]  (AND with a partition clause, either order)    1: [[A], [P]]  (OR)
     A, P = ("a", OPS[op1], v1), ("p", "!=" if pne else "==", vp)
@@ -135,6 +133,14 @@ def h_column_filter_partition(a0: int, a1: int, p: int, op1: int, v1: int, pne: 
     return all(bool(out[i]) == _expected(rows[i], filters, False) for i in range(2))
 
 
+def h_column_filter_partition(a0: int, a1: int, p: int, op1: int, v1: int, pne: bool, vp: int, shape: int) -> bool:
+    """
+    pre: 0 <= op1 < 7 and 0 <= shape <= 2
+    post: __return__
+    """
+    return _h_column_filter_partition(a0, a1, p, op1, v1, pne, vp, shape)
+
+
 def h_column_filter_partition_and(a0: int, a1: int, p: int, op1: int, v1: int, pne: bool, vp: int,
                                   pfirst: bool) -> bool:
     """
@@ -142,7 +148,7 @@ def h_column_filter_partition_and(a0: int, a1: int, p: int, op1: int, v1: int, p
     post: __return__
     """
     # the AND shapes alone, partition clause last or first (outside known finding P2, which concerns OR groups)
-    return h_column_filter_partition(a0, a1, p, op1, v1, pne, vp, 2 if pfirst else 0)
+    return _h_column_filter_partition(a0, a1, p, op1, v1, pne, vp, 2 if pfirst else 0)
 
 
 def replay_h_column_filter_partition_and(a0, a1, p, op1, v1, pne, vp, pfirst):
